@@ -1,7 +1,8 @@
 (* C06 — Integer arithmetic is exact or the query fails; it never wraps.
    Property theorems only; every statement is closed by [exact <lemma>].  The model
    (Model/CheckedArith.v) is a transcription of numeric_operators.rs / binary_operator.rs /
-   aggregate.rs / merge_aggregate.rs and is tied to them by the lv_query harness on every run. *)
+   aggregate.rs / merge_aggregate.rs (at /repo HEAD 1c4a1c7, i.e. with the wrapping_rem fix) and is tied to
+   them by the lv_query harness on every run. *)
 From Coq Require Import ZArith List Bool.
 From LV Require Import Model.CheckedArith Proofs.CheckedArith.
 Import ListNotations.
@@ -28,27 +29,22 @@ Theorem C06_flag_only_when_needed :
     (op = OpDiv /\ a = - i64_max /\ b = -1).
 Proof. exact perform_checked_flag. Qed.
 
-(* Conversely an exact result that fits is returned, outside the conservative division case and
-   the panic below. *)
+(* Conversely an exact result that fits is returned, outside the conservative division case. *)
 Theorem C06_exact_when_fits :
   forall op a b z,
     in_i64 a = true -> in_i64 b = true ->
     exact_op op a b = Some z -> in_i64 z = true ->
     ~ (op = OpDiv /\ a = - i64_max /\ b = -1) ->
-    ~ (op = OpMod /\ a = i64_min /\ b = -1) ->
     perform_checked op a b = RVal z false.
 Proof. exact perform_checked_complete. Qed.
 
-(* "never Panic" is refuted on the faithful model exactly at i64::MIN % -1 (finding F9):
-   the guarded statement ... *)
-Theorem C06_no_panic_guarded :
-  forall op a b, ~ (op = OpMod /\ a = i64_min /\ b = -1) -> perform_checked op a b <> RPanic.
-Proof. intros op a b N E. apply N. apply perform_checked_panic_iff. exact E. Qed.
+(* No operation panics: [checked_res] has no panic outcome any more.  i64::MIN % -1 (finding F9,
+   fixed by 5836e7f: wrapping_rem) yields the exact remainder 0 without an overflow flag. *)
+Theorem C06_mod_min_minus_one : perform_checked OpMod i64_min (-1) = RVal 0 false.
+Proof. exact mod_min_minus_one. Qed.
 
-(* ... and the witness, replayed on the implementation by the harness (suite c06_kernel). *)
-Theorem C06_mod_refuted :
-  exists a b, in_i64 a = true /\ in_i64 b = true /\ perform_checked OpMod a b = RPanic.
-Proof. exact mod_refuted. Qed.
+Theorem C06_total : forall op a b, exists v o, perform_checked op a b = RVal v o.
+Proof. intros op a b. destruct (perform_checked op a b) as [v o]. eauto. Qed.
 
 (* A NULL operand makes the result NULL and contributes no error. *)
 Theorem C06_null_propagates :
@@ -57,11 +53,9 @@ Proof. intros op c. split; [apply cell_op_null_l|apply cell_op_null_r]. Qed.
 
 (* In the nullable operator loop rows whose present bit is clear never raise Overflow. *)
 Theorem C06_absent_rows_raise_nothing :
-  forall op pairs,
-    (forall a b, In (a, b) pairs -> perform_checked op a b <> RPanic) ->
-    exists vs, checked_loop op pairs (Some []) [] false = VOk vs.
+  forall op pairs, exists vs, checked_loop op pairs (Some []) [] false = VOk vs.
 Proof.
-  intros op pairs H. destruct (checked_loop_all_absent op pairs [] false H) as [vs E].
+  intros op pairs. destruct (checked_loop_all_absent op pairs [] false) as [vs E].
   exists vs. exact E.
 Qed.
 
